@@ -1,0 +1,7 @@
+//go:build !verif
+
+package types
+
+// verifSkipSeal is a constant false in ordinary builds: the proof-of-work
+// seal of every header is always verified.
+func verifSkipSeal() bool { return false }
